@@ -9,7 +9,7 @@ anything that is not a postfix operator.
 namespace PycModel.OperandId
 open PycModel PycModel.View PycModel.ClimbConcrete
 
-variable {ty : String → Bool}
+variable {env : Env}
 
 def postfixStarters : List String := ["LPAREN", "LBRACKET", "PERIOD", "ARROW", "PLUSPLUS", "MINUSMINUS"]
 
@@ -21,8 +21,8 @@ theorem bind_apply {α β} (m : P α) (f : α → P β) (s : PState) :
 theorem pure_apply {α} (a : α) (s : PState) : (pure a : P α) s = .ok a s := rfl
 
 /-- `peekType` on any seen token list -/
-theorem peekType_spec (s : PState) (toks : List Tk) (h : SeesT ty s toks) :
-    ∃ s', peekType s = .ok (toks.head?.map (·.1)) s' ∧ SeesT ty s' toks ∧ s'.idx = s.idx ∧
+theorem peekType_spec (s : PState) (toks : List Tk) (h : SeesT env s toks) :
+    ∃ s', peekType s = .ok (toks.head?.map (·.1)) s' ∧ SeesT env s' toks ∧ s'.idx = s.idx ∧
       BufExt s s' ∧ s.buf.size ≤ s'.buf.size := by
   cases toks with
   | nil =>
@@ -34,9 +34,9 @@ theorem peekType_spec (s : PState) (toks : List Tk) (h : SeesT ty s toks) :
     exact ⟨s', by simp [peekType, bind_apply, hp, pure_apply], hs', hi, hb⟩
 
 /-- `accept kind` when the next token (if any) is of another kind -/
-theorem accept_other (s : PState) (toks : List Tk) (kind : String) (h : SeesT ty s toks)
+theorem accept_other (s : PState) (toks : List Tk) (kind : String) (h : SeesT env s toks)
     (hk : ∀ k v r, toks = (k, v) :: r → k ≠ kind) :
-    ∃ s', accept kind s = .ok none s' ∧ SeesT ty s' toks ∧ s'.idx = s.idx := by
+    ∃ s', accept kind s = .ok none s' ∧ SeesT env s' toks ∧ s'.idx = s.idx := by
   cases toks with
   | nil =>
     obtain ⟨s', hp, hs', _, hi, _⟩ := peek_end s h
@@ -48,8 +48,8 @@ theorem accept_other (s : PState) (toks : List Tk) (kind : String) (h : SeesT ty
     exact ⟨s', by simp [accept, bind_apply, hp, pure_apply, this], hs', hi⟩
 
 /-- `accept k` when the next token is of kind `k`: consumes it (and it stays in the buffer) -/
-theorem accept_same (s : PState) (k v : String) (toks : List Tk) (h : SeesT ty s ((k, v) :: toks)) :
-    ∃ s', accept k s = .ok (some ⟨k, v, s.idx⟩) s' ∧ SeesT ty s' toks ∧ s'.idx = s.idx + 1 ∧
+theorem accept_same (s : PState) (k v : String) (toks : List Tk) (h : SeesT env s ((k, v) :: toks)) :
+    ∃ s', accept k s = .ok (some ⟨k, v, s.idx⟩) s' ∧ SeesT env s' toks ∧ s'.idx = s.idx + 1 ∧
       s'.buf[s.idx]? = some (some ⟨k, v, s.idx⟩) := by
   obtain ⟨s1, hp, hs1, _, hi1, _, _⟩ := peek_spec s k v toks h
   obtain ⟨s2, ha, hs2, _, hi2, _, _, hb⟩ := advance_spec s1 k v toks hs1
@@ -57,24 +57,24 @@ theorem accept_same (s : PState) (k v : String) (toks : List Tk) (h : SeesT ty s
   simp [accept, bind_apply, hp, ha, pure_apply, hi1]
 
 /-- `expect k` when the next token is of kind `k` -/
-theorem expect_same (s : PState) (k v : String) (toks : List Tk) (h : SeesT ty s ((k, v) :: toks)) :
-    ∃ s', expect k s = .ok ⟨k, v, s.idx⟩ s' ∧ SeesT ty s' toks ∧ s'.idx = s.idx + 1 := by
+theorem expect_same (s : PState) (k v : String) (toks : List Tk) (h : SeesT env s ((k, v) :: toks)) :
+    ∃ s', expect k s = .ok ⟨k, v, s.idx⟩ s' ∧ SeesT env s' toks ∧ s'.idx = s.idx + 1 := by
   obtain ⟨s', hp, hs', _, hi, _⟩ := advance_spec s k v toks h
   exact ⟨s', by simp [expect, bind_apply, hp, pure_apply], hs', hi⟩
 
 
 /-- `_try_parse_paren_type_name` when the next token is not `(` -/
-theorem tryParen_none (F : Nat) (s : PState) (toks : List Tk) (h : SeesT ty s toks)
+theorem tryParen_none (F : Nat) (s : PState) (toks : List Tk) (h : SeesT env s toks)
     (hk : ∀ k v r, toks = (k, v) :: r → k ≠ "LPAREN") :
-    ∃ s', run (F + 1) .tryParenTypeName s = .ok none s' ∧ SeesT ty s' toks ∧ s'.idx = s.idx := by
+    ∃ s', run (F + 1) .tryParenTypeName s = .ok none s' ∧ SeesT env s' toks ∧ s'.idx = s.idx := by
   obtain ⟨s', ha, hs', hi⟩ := accept_other s toks "LPAREN" h hk
   refine ⟨s', ?_, hs', hi⟩
   show pTryParenTypeName (run F) s = _
   simp [pTryParenTypeName, bind_apply, mark, ha, pure_apply]
 
 /-- the postfix loop stops at a token that is not a postfix operator -/
-theorem postfixLoop_stop (F : Nat) (s : PState) (e : Val) (rest : List Tk) (h : SeesT ty s rest) (hf : FollowOp rest) :
-    ∃ s', run (F + 1) (.postfixLoop e) s = .ok e s' ∧ SeesT ty s' rest ∧ s'.idx = s.idx := by
+theorem postfixLoop_stop (F : Nat) (s : PState) (e : Val) (rest : List Tk) (h : SeesT env s rest) (hf : FollowOp rest) :
+    ∃ s', run (F + 1) (.postfixLoop e) s = .ok e s' ∧ SeesT env s' rest ∧ s'.idx = s.idx := by
   have hne : ∀ kind ∈ postfixStarters, ∀ k v r, rest = (k, v) :: r → k ≠ kind := by
     intro kind hkind k v r hr hk
     exact hf k v r hr (hk ▸ hkind)
@@ -103,9 +103,9 @@ theorem postfixLoop_stop (F : Nat) (s : PState) (e : Val) (rest : List Tk) (h : 
   simp [pPostfixLoop, bind_apply, h1, h2, h3, h4, hset1, hset2, pure_apply]
 
 /-- a primary expression that is an identifier -/
-theorem primary_id (F : Nat) (s : PState) (x : String) (rest : List Tk) (h : SeesT ty s (("ID", x) :: rest)) :
+theorem primary_id (F : Nat) (s : PState) (x : String) (rest : List Tk) (h : SeesT env s (("ID", x) :: rest)) :
     ∃ s', run (F + 1) .primaryExpression s = .ok (mk .ID (some ⟨"", s.idx, some (s.idx + 1)⟩) [.str x]) s' ∧
-      SeesT ty s' rest ∧ s'.idx = s.idx + 1 := by
+      SeesT env s' rest ∧ s'.idx = s.idx + 1 := by
   obtain ⟨s1, h1, hs1, hi1, _⟩ := peekType_spec s _ h
   obtain ⟨s2, h2, hs2, hi2⟩ := expect_same s1 "ID" x rest hs1
   refine ⟨s2, ?_, hs2, by omega⟩
@@ -119,10 +119,10 @@ theorem id_not_lparen (x : String) (rest : List Tk) :
   simp only [List.cons.injEq, Prod.mk.injEq] at h
   rw [← h.1.1]; decide
 
-theorem postfix_id (F : Nat) (s : PState) (x : String) (rest : List Tk) (h : SeesT ty s (("ID", x) :: rest))
+theorem postfix_id (F : Nat) (s : PState) (x : String) (rest : List Tk) (h : SeesT env s (("ID", x) :: rest))
     (hf : FollowOp rest) :
     ∃ s', run (F + 2) (.postfixExpression none) s = .ok (mk .ID (some ⟨"", s.idx, some (s.idx + 1)⟩) [.str x]) s' ∧
-      SeesT ty s' rest ∧ s'.idx = s.idx + 1 := by
+      SeesT env s' rest ∧ s'.idx = s.idx + 1 := by
   obtain ⟨s1, h1, hs1, hi1⟩ := tryParen_none F s _ h (id_not_lparen x rest)
   obtain ⟨s2, h2, hs2, hi2⟩ := primary_id F s1 x rest hs1
   obtain ⟨s3, h3, hs3, hi3⟩ := postfixLoop_stop F s2 (mk .ID (some ⟨"", s1.idx, some (s1.idx + 1)⟩) [.str x]) rest hs2 hf
@@ -131,10 +131,10 @@ theorem postfix_id (F : Nat) (s : PState) (x : String) (rest : List Tk) (h : See
   show pPostfixExpression (run (F + 1)) none s = _
   simp [pPostfixExpression, bind_apply, h1, h2, h3, pure_apply]
 
-theorem unary_id (F : Nat) (s : PState) (x : String) (rest : List Tk) (h : SeesT ty s (("ID", x) :: rest))
+theorem unary_id (F : Nat) (s : PState) (x : String) (rest : List Tk) (h : SeesT env s (("ID", x) :: rest))
     (hf : FollowOp rest) :
     ∃ s', run (F + 3) .unaryExpression s = .ok (mk .ID (some ⟨"", s.idx, some (s.idx + 1)⟩) [.str x]) s' ∧
-      SeesT ty s' rest ∧ s'.idx = s.idx + 1 := by
+      SeesT env s' rest ∧ s'.idx = s.idx + 1 := by
   obtain ⟨s1, h1, hs1, hi1, _⟩ := peekType_spec s _ h
   obtain ⟨s2, h2, hs2, hi2⟩ := postfix_id F s1 x rest hs1 hf
   refine ⟨s2, ?_, hs2, by omega⟩
@@ -142,10 +142,10 @@ theorem unary_id (F : Nat) (s : PState) (x : String) (rest : List Tk) (h : SeesT
   show pUnaryExpression (run (F + 2)) s = _
   simp [pUnaryExpression, bind_apply, h1, inSet, h2]
 
-theorem cast_id (F : Nat) (s : PState) (x : String) (rest : List Tk) (h : SeesT ty s (("ID", x) :: rest))
+theorem cast_id (F : Nat) (s : PState) (x : String) (rest : List Tk) (h : SeesT env s (("ID", x) :: rest))
     (hf : FollowOp rest) :
     ∃ s', run (F + 4) .castExpression s = .ok (mk .ID (some ⟨"", s.idx, some (s.idx + 1)⟩) [.str x]) s' ∧
-      SeesT ty s' rest ∧ s'.idx = s.idx + 1 := by
+      SeesT env s' rest ∧ s'.idx = s.idx + 1 := by
   obtain ⟨s1, h1, hs1, hi1⟩ := tryParen_none (F + 2) s _ h (id_not_lparen x rest)
   obtain ⟨s2, h2, hs2, hi2⟩ := unary_id F s1 x rest hs1 hf
   refine ⟨s2, ?_, hs2, by omega⟩
